@@ -37,13 +37,12 @@ ASSUMPTIONS = [
     "line break (not judged by this property)",
 ]
 OPEN = [
-    "C15_structure states `one picture environment` on the list of blocks `render` joins (no block other than "
-    "the two delimiters equals a delimiter; generated obligation picture_env_once: no literal piece of another "
-    "template contains one); that no hole FILLING contains the delimiter text is not a theorem (checked on every "
-    "rendered text)",
-    "the drawing calls (which statement, which fillings, in which order) are an input of the model `render`: "
-    "`_tikz_draw_fork`/`_tikz_draw_branches` themselves are not modelled; the check re-threads every real text "
-    "into such a call sequence and has the model re-assemble it byte for byte",
+    "C15_structure states `one picture environment` on the list of blocks `render` joins (no block other than the two "
+    "delimiters equals a delimiter; generated obligation picture_env_once: no literal piece of another template "
+    "contains one); that no hole FILLING contains the delimiter text is not a theorem (checked on every rendered text)",
+    "fmtCoord models round(x, 4) / float repr for exactly representable (dyadic) coordinates only; the drawing code "
+    "itself (_tikz_draw_fork / _tikz_draw_branches / render's species loop) is modelled (Model/TikzDraw.lean), proved "
+    "(C15_draw_valid_all) and tied byte for byte",
 ]
 
 ALPHA_NAME = "abcXYZ019__\\\\"  # letters, digits, underscores, backslashes (the latter two over-sampled)
